@@ -184,8 +184,33 @@ pub fn check(fc: &FCase, st: &mut Stats) -> CheckResult {
     let prev_latest = h.model.client(c).latest();
     let _ = wrap::take_log(&shared);
     wrap::arm(&shared, vec![fc.fault]);
+    if let Op::AddVersion { parent, .. } = &fc.target {
+        // should the request go back to storage after the failure (nothing obliges it to), a
+        // competing AddVersion on the same parent is served in that gap
+        let p = h.resolve(parent);
+        shared.lock().unwrap().interpose = Some((p, b"competing request".to_vec()));
+    }
     let out = issue(&mut h, &fc.target);
     let injected = wrap::disarm(&shared);
+    let interposed = {
+        let mut s = shared.lock().unwrap();
+        s.interpose = None;
+        s.interposed.take()
+    };
+    if let Some(r) = interposed {
+        st.label("c05:competing-request-served-after-the-failure");
+        if !out.is_error() {
+            return v(format!(
+                "{:?} via {:?}: storage call {:?} was made to fail, the request went back to storage, a competing AddVersion on the same parent was served meanwhile ({r:?}), and the client was then answered {} - a success although its own change was never committed",
+                fc.target,
+                fc.via,
+                injected.first().map(|i| i.1),
+                out.short()
+            ));
+        }
+        // the model cannot follow the competitor's version id through the remaining oracles
+        return Ok(());
+    }
     let log = wrap::take_log(&shared);
     let now = sm(&h)?;
     st.check();
